@@ -2,7 +2,7 @@
    Full-strength statement: C10 (see DESIGN.md section 7) (Cluster/Statements.v). Proved so far: the theorems below; what is
    not yet proved is decided on every run by the lock-step co-simulation (model = implementation on every
    explored schedule) together with the monitors run on the implementation's own observations. *)
-From RaftV Require Import Cluster.Statements Proofs.RVSpec Proofs.AESpec.
+From RaftV Require Import Cluster.Statements Proofs.RVSpec Proofs.AESpec Proofs.SnapSpec.
 Open Scope N_scope.
 
 (* becomeFollower (every term change, every step-down) never touches the commit index, the applied index, the
@@ -10,3 +10,15 @@ Open Scope N_scope.
 Theorem C10_step_down_frame : forall now n l t, vol (become_follower now n l t) = vol n.
 Proof. exact vol_become_follower. Qed.
 Print Assumptions C10_step_down_frame.
+
+(* The state machine used by the co-simulation (harness/sim.FSM, modelled by fsm_snap / fsm_unsnap): restoring a
+   snapshot gives back exactly the operations that were snapshotted, for every padding (snapshots of 0 B to several
+   chunk sizes) and every operation list with 32-bit payloads. *)
+Theorem C10_restore_of_snapshot_is_identity : forall pad st,
+  Forall (fun p => p < 4294967296) st -> N.of_nat (length st) < 4294967296 ->
+  fsm_unsnap (fsm_snap pad st) = st.
+Proof. exact fsm_unsnap_snap. Qed.
+Print Assumptions C10_restore_of_snapshot_is_identity.
+
+Example C10_nonvacuous : fsm_unsnap (fsm_snap 5 [7; 8; 9]) = [7; 8; 9].
+Proof. reflexivity. Qed.
